@@ -56,6 +56,7 @@ type oblAgg struct {
 	Failed    []*Obligation
 	Ms        int64
 	Solvers   map[string]int
+	KnownOpen bool
 }
 
 type CheckResult struct {
@@ -132,6 +133,18 @@ func runCheck(prop, tier string, overlay map[string][]byte, mutantMode bool) (*C
 		}
 	}
 	sort.Strings(keys)
+	if only := os.Getenv("GOVC_ONLY"); only != "" {
+		var ks []string
+		for _, k := range keys {
+			for _, o := range strings.Split(only, ",") {
+				if strings.Contains(k, o) {
+					ks = append(ks, k)
+					break
+				}
+			}
+		}
+		keys = ks
+	}
 	var allObls []*Obligation
 	for _, k := range keys {
 		c := db.Contracts[k]
@@ -197,7 +210,11 @@ func runCheck(prop, tier string, overlay map[string][]byte, mutantMode bool) (*C
 	if err != nil {
 		return nil, err
 	}
-	defer os.RemoveAll(dir)
+	if os.Getenv("GOVC_KEEP") == "" {
+		defer os.RemoveAll(dir)
+	} else {
+		fmt.Fprintln(os.Stderr, "[govc] keeping queries in", dir)
+	}
 	pkgT := w.ByPkg[repoMod+"/"+cfg.Pkgs[0]].Types
 	axioms := append(builtinAxioms(), e.specAxioms(pkgT)...)
 	sv := &Solver{dir: dir, timeoutS: timeoutFor(tier), axioms: axioms, bySolver: map[string]int{}}
@@ -235,10 +252,12 @@ func runCheck(prop, tier string, overlay map[string][]byte, mutantMode bool) (*C
 			if rep.Unsupported != "" {
 				continue
 			}
-			for j, pc := range rep.CoverPCs {
-				if j >= 4 {
-					break
-				}
+			step := 1
+			if len(rep.CoverPCs) > 16 {
+				step = len(rep.CoverPCs) / 16
+			}
+			for j := 0; j < len(rep.CoverPCs); j += step {
+				pc := rep.CoverPCs[j]
 				q := &Query{Name: "vacuity", Axioms: sv.axioms, Asserts: pc}
 				vqs = append(vqs, &vq{rep: i, text: "; vacuity guard: this must not be unsat\n" + q.SMT(false)})
 			}
@@ -269,6 +288,15 @@ func runCheck(prop, tier string, overlay map[string][]byte, mutantMode bool) (*C
 						refuted++
 					}
 				}
+			}
+			hasFailure := false
+			for _, o := range solveList {
+				if o.Fn == rep.Key && o.Result != "unsat" && o.Result != "" {
+					hasFailure = true
+				}
+			}
+			if hasFailure {
+				continue // a failed obligation is assumed afterwards, which may make the rest of the path contradictory
 			}
 			if n == 0 || refuted == n {
 				o := &Obligation{Name: fmt.Sprintf("%s/%s/meta:vacuity", prop, rep.Key), Kind: "meta", Fn: rep.Key, Result: "unsupported",
@@ -343,13 +371,15 @@ func runCheck(prop, tier string, overlay map[string][]byte, mutantMode bool) (*C
 	}
 	// whole-obligation known findings (no witness)
 	for _, a := range res.Aggs {
-		if len(a.Failed) == 0 {
-			continue
-		}
 		for _, kf := range known.Findings {
 			if kf.Property == prop && kf.Obligation == a.Name && strings.HasPrefix(kf.Status, "open") && kf.Witness == "" {
+				if len(a.Failed) == 0 {
+					res.Known = append(res.Known, fmt.Sprintf("STALE-KNOWN-FINDING: property=%s %s [%s] (the obligation now discharges)", prop, kf.What, a.Name))
+					continue
+				}
 				res.Known = append(res.Known, fmt.Sprintf("KNOWN-FINDING: property=%s %s [%s]", prop, kf.What, a.Name))
 				a.Failed = nil
+				a.KnownOpen = true
 			}
 		}
 	}
@@ -410,20 +440,64 @@ func tryReplay(res *CheckResult, a *oblAgg) (bool, string, map[string]string) {
 	}
 	defer os.RemoveAll(dir)
 	var log strings.Builder
+	if len(rep.Template.Probes) == 0 {
+		// scenario replay: the template needs nothing from the model
+		ok, tl := runReplay(rep.Template, a.Failed[0].Label, nil, dir)
+		return ok, tl, rep.Template.FixedValues
+	}
 	for _, o := range a.Failed {
-		if o.Result != "sat" || o.FailSMT == "" {
+		if o.FailSMT == "" {
 			continue
 		}
-		vals, out := probeModel(o.FailSMT, rep.Probes, dir)
-		if vals == nil {
-			log.WriteString("model probing failed: " + out + "\n")
-			continue
+		smt := o.FailSMT
+		if o.Result != "sat" {
+			// undecided (quantifiers): look for a candidate input in the query without its quantified
+			// assumptions. The candidate may be spurious; only its replay on the real code counts.
+			var kept []string
+			for _, l := range strings.Split(smt, "\n") {
+				if strings.HasPrefix(l, "(assert") && (strings.Contains(l, "(forall ") || strings.Contains(l, "(exists ")) && !strings.HasPrefix(l, "(assert (not (") {
+					continue
+				}
+				kept = append(kept, l)
+			}
+			smt = strings.Join(kept, "\n")
 		}
-		label := o.Label
-		ok, tl := runReplay(rep.Template, label, vals, dir)
-		log.WriteString(tl)
-		if ok {
-			return true, log.String(), vals
+		// try a few distinct candidate inputs: each replay that does not confirm blocks that assignment
+		for attempt := 0; attempt < 3; attempt++ {
+			vals, out := probeModel(smt, rep.Probes, dir)
+			if vals == nil {
+				log.WriteString("model probing failed: " + out + "\n")
+				break
+			}
+			ok, tl := runReplay(rep.Template, o.Label, vals, dir)
+			log.WriteString(tl)
+			if ok {
+				return true, log.String(), vals
+			}
+			if o.Result == "sat" && attempt >= 2 {
+				break
+			}
+			// block this assignment of the (int / bool valued) probes
+			var eqs []string
+			for name, t := range rep.Probes {
+				v, has := vals[name]
+				if !has || (t.sort != SInt && t.sort != SBool) {
+					continue
+				}
+				if strings.HasPrefix(v, "-") {
+					v = "(- " + v[1:] + ")"
+				}
+				eqs = append(eqs, fmt.Sprintf("(= %s %s)", t.String(), v))
+			}
+			if len(eqs) == 0 {
+				break
+			}
+			block := "(assert (not (and " + strings.Join(eqs, " ") + ")))\n"
+			idx := strings.LastIndex(smt, "(check-sat)")
+			if idx < 0 {
+				break
+			}
+			smt = smt[:idx] + block + smt[idx:]
 		}
 	}
 	return false, log.String(), nil
@@ -474,14 +548,18 @@ func writeReplay(prop string, a *oblAgg, confirmed bool, rlog string, vals map[s
 
 func writeEvidence(res *CheckResult, wall float64, seed int, cfg *PropConfig) error {
 	os.MkdirAll(filepath.Join(verifDir, "evidence"), 0o755)
-	obligations, discharged := 0, 0
+	obligations, discharged, refutedKnown := 0, 0, 0
 	var oblList []map[string]interface{}
 	kindCount := map[string]int{}
 	for _, a := range res.Aggs {
 		obligations++
 		kindCount[a.Kind]++
 		st := "discharged"
-		if len(a.Failed) > 0 {
+		if a.KnownOpen {
+			st = "refuted (open known finding)"
+			obligations--
+			refutedKnown++
+		} else if len(a.Failed) > 0 {
 			st = "failed:" + a.Failed[0].Result
 		} else {
 			discharged++
@@ -550,6 +628,7 @@ func writeEvidence(res *CheckResult, wall float64, seed int, cfg *PropConfig) er
 		"solver_ms_total":          res.SolverMs,
 		"queries_by_solver":        res.BySolver,
 		"known_findings_reported":  res.Known,
+		"refuted_known":            refutedKnown,
 		"bounded_standins":         cfg.Bounded,
 		"not_decided":              cfg.NotDecided,
 		"vacuity_guards":           res.Vacuity,
@@ -611,6 +690,9 @@ func cmdCheck(args []string) int {
 	json.Unmarshal(b, &cfgs)
 	nObl, nOK := 0, 0
 	for _, a := range res.Aggs {
+		if a.KnownOpen {
+			continue
+		}
 		nObl++
 		if len(a.Failed) == 0 {
 			nOK++
